@@ -69,14 +69,14 @@ def fullIn (d : List Cmd) : Bool := Cmd.all.all fun x => d.contains x
 
 /-- with `enable_by_default = True` the shared flag `_control_set` cannot be observed: the answer is a
 function of the context's own set -/
-theorem isDisable_eq {w : World} (h : w.Ok) (he : w.enableByDefault = true) (c b : Nat)
+theorem isDisable_eq {w : World} (h : w.Ok) (c b : Nat) (he : w.enableByDefault b = true)
     (cmds : List Cmd) : isDisable w c b cmds = disabledIn (w.var c b) cmds := by
   unfold isDisable disabledIn
   cases hb : w.controlSet b with
   | true => simp
   | false => simp [he, h b hb c]
 
-theorem isFullDisable_eq {w : World} (h : w.Ok) (he : w.enableByDefault = true) (c b : Nat) :
+theorem isFullDisable_eq {w : World} (h : w.Ok) (c b : Nat) (he : w.enableByDefault b = true) :
     isFullDisable w c b = fullIn (w.var c b) := by
   unfold isFullDisable fullIn
   cases hb : w.controlSet b with
